@@ -49,6 +49,7 @@ type Cfg struct {
 	Carriers    bool
 	NonIterable bool // allow `for` over a scalar (error arm of C06)
 	NoInterp    bool // no string interpolation (position checks)
+	Collide     bool // loop variables, macro parameters and set targets share a small name pool with outer variables
 	Wild        bool // any operand kind anywhere (totality checks)
 	WildFilters []string
 }
@@ -77,6 +78,7 @@ type G struct {
 	targetBlocks map[int]map[string]bool
 	forceOnly    bool
 	inBlock        int
+	locals         []string
 	wildN, wildCur int
 	wildMacros   []string
 }
@@ -90,6 +92,11 @@ func (g *G) intn(label string, lo, hi int) int { return rapid.IntRange(lo, hi).D
 func (g *G) flip(label string) bool             { return rapid.Bool().Draw(g.T, label) }
 func (g *G) pick(label string, n int) int       { return rapid.IntRange(0, n-1).Draw(g.T, label) }
 func pickS[T any](g *G, label string, xs []T) T { return xs[g.pick(label, len(xs))] }
+
+// collidePool holds names used for loop variables, macro parameters and set
+// targets when collisions are wanted (C07): they coincide with context
+// variables and with each other.
+var collidePool = []string{"i0", "s0", "b0", "z0", "v0", "v1", "an0", "x", "loopv"}
 
 var strPool = []string{"a", "b", "ab", "abc", "x y", "é", "", "Zed", "a-b", "q"}
 var patPool = []string{"a", "^a", "b$", "^ab", "a.c", "[ab]+", "^$", "x|y"}
@@ -654,7 +661,7 @@ func (g *G) freshOrExisting(ty Ty) string {
 	}
 	for name, i := range last {
 		v := g.vars[i]
-		if v.ty == ty && count[name] == 1 && !strings.HasPrefix(name, "lv") && !strings.HasPrefix(name, "lk") && !strings.HasPrefix(name, "p") && name != "loop" {
+		if (v.ty == ty || g.C.Collide) && count[name] == 1 && !g.isLocal(name) && !strings.HasPrefix(name, "lv") && !strings.HasPrefix(name, "lk") && !strings.HasPrefix(name, "p") && name != "loop" {
 			cands = append(cands, name)
 		}
 	}
@@ -664,7 +671,23 @@ func (g *G) freshOrExisting(ty Ty) string {
 		return pickS(g, "setname", cands)
 	}
 	g.textSeq++
-	return fmt.Sprintf("v%d", g.intn("fresh", 0, 3))
+	name := fmt.Sprintf("v%d", g.intn("fresh", 0, 3))
+	if g.isLocal(name) {
+		// a loop variable or macro parameter of that name is in scope: the
+		// statement does not cover assignments to it
+		return fmt.Sprintf("w%d", g.intn("fresh2", 0, 3))
+	}
+	return name
+}
+
+// isLocal reports whether name is currently a loop variable (or key).
+func (g *G) isLocal(name string) bool {
+	for _, l := range g.locals {
+		if l == name {
+			return true
+		}
+	}
+	return false
 }
 
 func sortStrings(xs []string) {
@@ -712,6 +735,10 @@ func (g *G) forStmt(nest int) *m.N {
 	n := &m.N{K: "for"}
 	depth := g.loops
 	n.S = fmt.Sprintf("lv%d", depth)
+	collide := g.C.Collide && g.intn("collide", 0, 2) > 0
+	if collide {
+		n.S = pickS(g, "lvname", collidePool)
+	}
 	var elTy, keyTy Ty = TInt, TInt
 	switch k := g.intn("seqk", 0, 9); {
 	case k <= 3:
@@ -731,12 +758,21 @@ func (g *G) forStmt(nest int) *m.N {
 	}
 	if g.flip("withkey") {
 		n.T = fmt.Sprintf("lk%d", depth)
+		if g.C.Collide && g.intn("collidek", 0, 2) > 0 {
+			n.T = pickS(g, "lkname", collidePool)
+			if n.T == n.S {
+				n.T = fmt.Sprintf("lk%d", depth)
+			}
+		}
 	}
 	mark := len(g.vars)
+	lmark := len(g.locals)
 	if n.T != "" {
 		g.push(n.T, keyTy)
+		g.locals = append(g.locals, n.T)
 	}
 	g.push(n.S, elTy)
+	g.locals = append(g.locals, n.S)
 	if g.C.ForIf && g.intn("forif", 0, 3) == 0 {
 		n.Y = g.Expr(TBool, 2)
 		g.inForIf++
@@ -751,6 +787,7 @@ func (g *G) forStmt(nest int) *m.N {
 		g.inForIf--
 	}
 	g.popTo(mark)
+	g.locals = g.locals[:lmark]
 	if g.flip("forelse") {
 		n.HasElse = true
 		n.Else = g.Body(nest - 1)
@@ -788,6 +825,9 @@ func (g *G) MacroDef(idx int) *m.N {
 	g.vars = nil
 	for i := 0; i < np; i++ {
 		p := fmt.Sprintf("p%d", i)
+		if g.C.Collide && i < len(collidePool) && g.flip("pcollide") {
+			p = collidePool[i]
+		}
 		n.Names = append(n.Names, p)
 	}
 	g.inMacro++
@@ -801,7 +841,7 @@ func (g *G) MacroDef(idx int) *m.N {
 		case 1:
 			if np > 0 {
 				// parameters are of unknown type: print them through cat/wrap
-				p := m.EName(fmt.Sprintf("p%d", g.intn("pi", 0, np-1)))
+				p := m.EName(n.Names[g.intn("pi", 0, np-1)])
 				if g.C.Calls && g.flip("pwrap") {
 					body = append(body, m.NPrint(m.ECall("cat", p)))
 				} else {
@@ -855,6 +895,10 @@ func (g *G) Program() *m.Program {
 	n := g.intn("toplen", 1, g.C.BodyLen+2)
 	for i := 0; i < n; i++ {
 		t.Body = append(t.Body, g.Stmt(g.C.Nest)...)
+	}
+	// the very last literal chunk may end in a lone brace (nothing follows it)
+	if g.C.HostileText && g.intn("tailbrace", 0, 3) == 0 {
+		t.Body = append(t.Body, m.NText(pickS(g, "tail", []string{"{", "x{", " { {", "}{", "%{"})))
 	}
 	return &m.Program{Env: "core", Loader: "memory", Tpls: []*m.Tpl{t}, Entry: "main", Ctx: ctx}
 }
